@@ -425,3 +425,45 @@ pub(crate) fn park_timeout_fires() -> bool {
 
 #[allow(unused)]
 const _: Duration = Duration::ZERO;
+
+// -------------------------------------------------------------------------
+// Public wrappers around crate-private components for component harnesses.
+// -------------------------------------------------------------------------
+
+pub mod exports {
+    pub use crate::channel::verif_exports::*;
+    pub use crate::executor::verif_exports::*;
+
+    use crate::time::{AtomicTime, AtomicTimeReader, MonotonicTime, TearableAtomicTime};
+
+    /// The simulation time cell (seqlock over a tearable atomic time).
+    pub struct VTimeCell(AtomicTime);
+
+    #[derive(Clone)]
+    pub struct VTimeReader(AtomicTimeReader);
+
+    impl VTimeCell {
+        pub fn new(time: MonotonicTime) -> Self {
+            Self(AtomicTime::new(TearableAtomicTime::new(time)))
+        }
+        /// Single writer.
+        pub fn write(&self, time: MonotonicTime) {
+            self.0.write(time)
+        }
+        pub fn read(&self) -> MonotonicTime {
+            self.0.read()
+        }
+        pub fn reader(&self) -> VTimeReader {
+            VTimeReader(self.0.reader())
+        }
+    }
+
+    impl VTimeReader {
+        pub fn read(&self) -> MonotonicTime {
+            self.0.read()
+        }
+        pub fn try_read(&self) -> Option<MonotonicTime> {
+            self.0.try_read().ok()
+        }
+    }
+}
